@@ -10,8 +10,12 @@ use std::sync::{Arc, Mutex};
 #[derive(Serialize, Deserialize, Clone, Debug)]
 pub enum Case {
     Block { key: String, block: String },
-    /// sequence of ops: 0 enc(b0), 1 enc(b1), 2 dec(b0), 3 dec(b1), 4..6 rebuild the cipher with key variant 0..2
+    /// sequence of ops: 0 enc(b0), 1 enc(b1), 2 dec(b0), 3 dec(b1), 4..6 rebuild the cipher with key variant 0..2, 7 decrypt / 8 encrypt of a 15-byte block (must fail and change nothing)
     History { key: String, seq: Vec<u16> },
+}
+
+fn std_key_bytes() -> [u8; 16] {
+    h16("0123456789abcdeffedcba9876543210")
 }
 
 fn h16(s: &str) -> [u8; 16] {
@@ -86,7 +90,7 @@ fn eval(ctx: &Ctx, case: &Case) {
             };
             let mut dbg0 = format!("{:?}", c);
             for (i, op) in seq.iter().enumerate() {
-                if *op >= 4 {
+                if *op >= 4 && *op < 7 {
                     k = variant(*op - 4);
                     ctx.call();
                     c = match guard(|| gm_sm4::Sm4Cipher::new(&k)) {
@@ -97,6 +101,22 @@ fn eval(ctx: &Ctx, case: &Case) {
                     if i + 1 == seq.len() {
                         // judge the freshly built object with one encryption
                         check_one(ctx, case, &c, &k, &blocks[0], false, "history");
+                    }
+                    continue;
+                }
+                if *op >= 7 {
+                    // a call that must fail (wrong block length) must leave the object untouched
+                    ctx.call();
+                    let bad = &blocks[0][..15];
+                    match guard(|| if *op == 7 { c.decrypt(bad) } else { c.encrypt(bad) }) {
+                        Guard::Done(Err(_)) => {}
+                        other => {
+                            ctx.violation("Sm4Cipher", "wrong-length-block-not-refused", other.map_dbg(), serde_json::to_value(case).unwrap());
+                            return;
+                        }
+                    }
+                    if i + 1 == seq.len() {
+                        check_one(ctx, case, &c, &k, &blocks[1], false, "history");
                     }
                     continue;
                 }
@@ -136,7 +156,7 @@ pub fn replay(ctx: &Arc<Ctx>, v: &Value) {
 
 pub fn run(ctx: &Arc<Ctx>) {
     refmodels::selftest::run(&[ctx.tier.pick("sm4", "sm4long")]).unwrap_or_else(|e| ctx.machinery_error(format!("reference self-test failed: {}", e)));
-    ctx.set_rule("keys x blocks over {0^128, 1^128, 128 single-bit, 16 byte patterns, standard vector, seeded}; derived families forcing every S-box index in every byte lane of round 1 (data path) and of the first key-schedule round; all op sequences to depth 4 over {enc b0, enc b1, dec b0, dec b1, rebuild the object with the same key / a key differing in the last byte / in the first byte} (2801 histories per base key). Oracle: independent SM4 with algebraically generated S-box.");
+    ctx.set_rule("keys x blocks over {0^128, 1^128, 128 single-bit, 16 byte patterns, standard vector, seeded}; derived families forcing every S-box index in every byte lane of round 1 (data path) and of the first key-schedule round; all op sequences to depth 4 over {enc b0, enc b1, dec b0, dec b1, rebuild the object with the same key / a key differing in the last byte / in the first byte, a refused decrypt / encrypt of a 15-byte block} (7381 histories per base key); every value of the first and of the last byte of key and block. Oracle: independent SM4 with algebraically generated S-box.");
     let nseed = ctx.tier.pick(4, 16);
     let keys = blocks128(ctx.seed, "c02keys", nseed);
     let blocks = blocks128(ctx.seed, "c02blocks", nseed);
@@ -145,6 +165,17 @@ pub fn run(ctx: &Arc<Ctx>) {
     for k in keys.iter() {
         for b in blocks.iter() {
             cases.push(Case::Block { key: hex::encode(k), block: hex::encode(b) });
+        }
+    }
+    // every value of the first and of the last byte of the key and of the block (text-like trimming, sign handling)
+    for v in 0..=255u8 {
+        for pos in [0usize, 15] {
+            let mut k = std_key_bytes();
+            k[pos] = v;
+            cases.push(Case::Block { key: hex::encode(k), block: hex::encode(std_key_bytes()) });
+            let mut b = std_key_bytes();
+            b[pos] = v;
+            cases.push(Case::Block { key: hex::encode(std_key_bytes()), block: hex::encode(b) });
         }
     }
     // derived families: drive each S-box index b through each byte lane
@@ -196,7 +227,7 @@ pub fn run(ctx: &Arc<Ctx>) {
         let model = HistModel {
             batch: 64,
             inits: vec![vec![]],
-            actions: Box::new(move |h: &[u16]| if h.len() < depth { vec![0, 1, 2, 3, 4, 5, 6] } else { vec![] }),
+            actions: Box::new(move |h: &[u16]| if h.len() < depth { vec![0, 1, 2, 3, 4, 5, 6, 7, 8] } else { vec![] }),
             visit: Arc::new(move |h: &[u16]| {
                 if !h.is_empty() {
                     let c = Case::History { key: k2.clone(), seq: h.to_vec() };
@@ -208,7 +239,7 @@ pub fn run(ctx: &Arc<Ctx>) {
         let st = explore(model);
         ctx.depth(st.max_depth);
         ctx.cov("immutability_model", json!({"unique_states": st.unique_states, "generated": st.generated, "max_depth": st.max_depth}));
-        let expect: u64 = (0..=depth as u32).map(|d| 7u64.pow(d)).sum();
+        let expect: u64 = (0..=depth as u32).map(|d| 9u64.pow(d)).sum();
         if st.unique_states != expect {
             ctx.machinery_error(format!("immutability model visited {} states, expected {}", st.unique_states, expect));
         }
